@@ -146,10 +146,10 @@ func c09(c *an.Check) {
 	}
 	if bce := peerBCE(c, "./util/rwc"); bce != nil {
 		c.Totality(an.PanicSpec{Construct: "rwc.Conn totality", Funcs: []*ssa.Function{rd, wr, rx, p.Func("util/rwc", T, "getArenaBuf")}, BCE: bce, Min: 4, Reviewed: map[string]string{
-			"(*util/rwc.Conn).Write: bounds pkt[written:]":     "written starts at 0 and grows by Write's count n <= len(pkt[written:]) (io.Writer contract); the loop runs only while written < len(pkt)",
-			"(*util/rwc.Conn).rxPump: bounds pktBuf[:n]":        "n is Read's count for pktBuf itself: 0 <= n <= len(pktBuf) (io.Reader contract)",
-			"(*util/rwc.Conn).getArenaBuf: bounds buf[:size]":   "taken only on the branch cap(buf) >= size",
-			"(*util/rwc.Conn).getArenaBuf: assert to *[]byte":   "the pool only ever receives *[]byte (all ar.Put calls in the package pass &[]byte)",
+			"(*util/rwc.Conn).Write: bounds pkt[written:]":    "written starts at 0 and grows by Write's count n <= len(pkt[written:]) (io.Writer contract); the loop runs only while written < len(pkt)",
+			"(*util/rwc.Conn).rxPump: bounds pktBuf[:n]":      "n is Read's count for pktBuf itself: 0 <= n <= len(pktBuf) (io.Reader contract)",
+			"(*util/rwc.Conn).getArenaBuf: bounds buf[:size]": "taken only on the branch cap(buf) >= size",
+			"(*util/rwc.Conn).getArenaBuf: assert to *[]byte": "the pool only ever receives *[]byte (all ar.Put calls in the package pass &[]byte)",
 		}})
 	}
 	c.Trust("io.Reader/io.Writer contracts (0<=n<=len)", "FIFO order of Go channels with a single sender")
@@ -182,7 +182,7 @@ func fieldUsedOnlyAsArg0ofInvoke(p *an.Prog, fn *ssa.Function, fv *types.Var, me
 
 func init() {
 	register(&Def{ID: "C09", Run: c09,
-		Explain: "Decides on SSA for rwc.Conn: (R1) Read returns a nil error only when len(b) >= len(chunk), copies the received chunk, and reports a closed channel as a non-nil error; (ORDER) in the pump, whenever Read returned n!=0 together with an error, buf[:n] of that very buffer is offered to the queue before the error return, and every delivery is buf[:n] of the buffer just read; the pump's deferred cleanup records its error and closes the channel, and it is the only sender/closer; (R1) Write returns nil only when everything was written, resuming at pkt[written:]; (PANIC) totality of these functions.",
-		NotCov:  "ordering across chunks (single pump goroutine + FIFO channel: trusted); the explicit short-buffer truncation is permitted by the property.",
+		Explain:     "Decides on SSA for rwc.Conn: (R1) Read returns a nil error only when len(b) >= len(chunk), copies the received chunk, and reports a closed channel as a non-nil error; (ORDER) in the pump, whenever Read returned n!=0 together with an error, buf[:n] of that very buffer is offered to the queue before the error return, and every delivery is buf[:n] of the buffer just read; the pump's deferred cleanup records its error and closes the channel, and it is the only sender/closer; (R1) Write returns nil only when everything was written, resuming at pkt[written:]; (PANIC) totality of these functions.",
+		NotCov:      "ordering across chunks (single pump goroutine + FIFO channel: trusted); the explicit short-buffer truncation is permitted by the property.",
 		Assumptions: commonAssumptions})
 }
